@@ -206,7 +206,8 @@ CHECKS = {
              'identity on extra data in decoded normal form (to_dict/from_dict); an extra field rendered raw as '
              '"Name: first line / continuation lines" is read back by the line-tracking parser as exactly that text '
              '(corollary of the C06 grammar theorem: no indentation gained per cycle - the pinned-tree defect F13); no '
-             'encoded formatted value contains an empty line or a line boundary. NOT proved: stability of line lists '
+             'encoded formatted value contains an empty line or a line boundary; a rendering whose paragraph renderings hold no '
+             'empty line splits back into exactly those renderings (same number of paragraphs). NOT proved: stability of line lists '
              '(Upstream-Contact) and of the License field, and the composition into whole documents (render.parse.render = '
              'render, same number of paragraphs, equal dictionary forms, from_dict(to_dict) at paragraph level): decided by '
              'co-execution of the complete model (rendering included) with copyright.py on generated DEP-5 documents and '
